@@ -277,7 +277,7 @@ def main(argv=None):
             has_cex = True      # collateral of a listed finding (e.g. NaN normalising constant)
         for mm in ([] if has_cex else r['validation_mismatch']):
             harness_errors.append({'cfg': cfg.get('key'), 'error': 'engine validation mismatch: %s' % json.dumps(mm)[:1500]})
-        if not r['complete'] and not cfg.get('stretch'):
+        if not r['complete'] and not cfg.get('stretch') and not cfg.get('timeboxed'):
             inconclusive.append({'cfg': cfg.get('key'), 'why': 'exploration budget exhausted'})
         if r['cut'] and not cfg.get('allow_cut'):
             inconclusive.append({'cfg': cfg.get('key'), 'why': '%d paths cut by harness bound' % r['cut']})
